@@ -30,7 +30,9 @@ type Fault struct {
 	// Mode: "error" (fail, nothing transferred), "partial" (Write: transfer
 	// Bytes bytes then fail; Read: deliver at most Bytes bytes then EOF),
 	// "timeout" (a net.Error with Timeout()==true), "eof" (Read: io.EOF),
-	// "callback" (call OnHit and let the operation proceed).
+	// "callback" (call OnHit and let the operation proceed), "block" (Write:
+	// transfer Bytes bytes, call OnHit, then block - like a peer that stopped
+	// reading - until this Conn is closed, and fail).
 	Mode  string
 	Bytes int
 	OnHit func() `json:"-"`
@@ -58,6 +60,7 @@ type Conn struct {
 	firedAt   time.Duration
 	readDL    time.Time
 	closed    bool
+	closeCh   chan struct{}
 	failedOps int
 	// BeforeWriteReturn, if set, is called after the bytes of a Write were
 	// handed to the underlying connection and before Write returns.
@@ -67,6 +70,9 @@ type Conn struct {
 	OnWrite func(b []byte)
 	// AfterRead, if set, is called with the number of bytes a Read returned.
 	AfterRead func(n int)
+	// BeforeSetReadDeadline, if set, is called at the start of every
+	// SetReadDeadline with the requested deadline (in the caller's goroutine).
+	BeforeSetReadDeadline func(t time.Time)
 }
 
 type timeoutErr struct{}
@@ -80,7 +86,7 @@ var ErrInjected = errors.New("injected connection fault")
 
 // New wraps c.
 func New(c net.Conn, f *Fault) *Conn {
-	return &Conn{Conn: c, start: time.Now(), counts: map[string]int{}, fault: f}
+	return &Conn{Conn: c, start: time.Now(), counts: map[string]int{}, fault: f, closeCh: make(chan struct{})}
 }
 
 // hit decides whether this operation is the one to fail.
@@ -183,6 +189,18 @@ func (c *Conn) Write(b []byte) (int, error) {
 			m, _ := c.Conn.Write(b[:n])
 			c.log(Event{Kind: Write, N: m, Err: ErrInjected.Error(), Hit: true})
 			return m, ErrInjected
+		case "block":
+			n := f.Bytes
+			if n > len(b) {
+				n = len(b)
+			}
+			m, _ := c.Conn.Write(b[:n])
+			if f.OnHit != nil {
+				f.OnHit()
+			}
+			<-c.closeCh
+			c.log(Event{Kind: Write, N: m, Err: "blocked until closed", Hit: true})
+			return m, net.ErrClosed
 		case "timeout":
 			c.log(Event{Kind: Write, Err: "timeout", Hit: true})
 			return 0, timeoutErr{}
@@ -201,6 +219,9 @@ func (c *Conn) Write(b []byte) (int, error) {
 
 // SetReadDeadline records the deadline.
 func (c *Conn) SetReadDeadline(t time.Time) error {
+	if c.BeforeSetReadDeadline != nil {
+		c.BeforeSetReadDeadline(t)
+	}
 	if f := c.hit(SetReadDeadline); f != nil {
 		if f.Mode == "callback" {
 			if f.OnHit != nil {
@@ -242,6 +263,9 @@ func (c *Conn) SetWriteDeadline(t time.Time) error {
 func (c *Conn) Close() error {
 	c.hit(Close)
 	c.mu.Lock()
+	if !c.closed {
+		close(c.closeCh)
+	}
 	c.closed = true
 	c.mu.Unlock()
 	err := c.Conn.Close()
